@@ -603,11 +603,24 @@ fn mutate(rng: &mut Rng, data: &[u8], l: &Layout) -> (Vec<u8>, String) {
                         specs.iter().position(|x| norm(*x) >= norm(spec)).unwrap_or(specs.len())
                     };
                     let at = if idx < l.cols.len() { l.cols[idx].0 } else { l.data.0 };
+                    // one pair, or a scenario of several pairs for the layout state machine: nested group, value
+                    // metadata / value inside a group, value of another id, lone value, a second pred-like group
+                    let scenarios: [&[u64]; 12] = [&[0xa0, 0xa0], &[0xa0, 0xa6], &[0xa0, 0xa6, 0xa7], &[0xa6, 0xb7], &[0xa6, 0xa7], &[0xa0, 0xa7],
+                        &[0xa0, 0xa1, 0xa3], &[0xa0, 0xa6, 0xa1], &[0x170, 0x170], &[0x1a0, 0x2a1], &[0xa6, 0xa6], &[0xa0, 0xa6, 0xa6, 0xa7]];
+                    let (specs_in, at): (Vec<u64>, usize) = if rng.chance(1, 4) {
+                        let sc = *rng.pick(&scenarios);
+                        let i2 = specs.iter().position(|x| norm(*x) > norm(sc[0])).unwrap_or(specs.len());
+                        (sc.to_vec(), if i2 < l.cols.len() { l.cols[i2].0 } else { l.data.0 })
+                    } else {
+                        (vec![spec], at)
+                    };
                     let mut w = vec![];
-                    uleb(&mut w, n + 1);
+                    uleb(&mut w, n + specs_in.len() as u64);
                     w.extend_from_slice(&data[l.ncols.1..at]);
-                    uleb(&mut w, spec);
-                    w.push(0);
+                    for sp in &specs_in {
+                        uleb(&mut w, *sp);
+                        w.push(0);
+                    }
                     w.extend_from_slice(&data[at..l.data.0]);
                     (splice(data, l.ncols.0, l.data.0, &w), "column-add".into())
                 }
@@ -970,6 +983,14 @@ pub fn run(rng: &mut Rng, tier: &str, out: &str) -> Report {
             || f.msg != e.message.clone().unwrap_or_default().into_bytes() || f.extra != e.extra_bytes || c.len() != e.operations.len()
         {
             rep.fail(&["C18"], "chg|encode-fields", "a field of an ExpandedChange is not what the encoded change reports", json!({"hand_built": i, "raw": hex(c.raw_bytes())}));
+        }
+        // expanding the encoded change gives the operations back (compared through their Debug form: NaN payloads
+        // and the like are not distinguished there, so no float is compared by value)
+        if let Ok(d) = guard(|| c.decode()) {
+            if format!("{:?}", d.operations) != format!("{:?}", e.operations) {
+                rep.fail(&["C18"], "chg|decode-ops-differ", "decode(Change::from(e)).operations differs from e.operations",
+                    json!({"hand_built": i, "raw": hex(c.raw_bytes()), "want": format!("{:?}", e.operations), "got": format!("{:?}", d.operations)}));
+            }
         }
         check_change(&mut rep, &mut cw, &c, "hand_built", true);
         if let Some((_, d)) = split_chunk(c.raw_bytes()) {
